@@ -244,7 +244,7 @@ def raw_data_containment(res, seed):
             res.nontrivial.add("raw %d" % case)
 
 
-def live_market_book_containment(res, seed):
+def live_market_book_containment(res, seed, model_ok=True):
     """the market-book dispatch of a LIVE framework (`BaseFlumine._process_market_books`, the loop `Flumine.run` uses): an exception
     raised by one strategy's `process_new_market`, `check_market_book` or `process_market_book` is contained; the strategies registered
     after it and the remaining books of the event are served, every strategy receives every callback of its stream exactly once and the
@@ -255,6 +255,7 @@ def live_market_book_containment(res, seed):
     from flumine.events import events
     from flumine.exceptions import FlumineException
     rng = random.Random(seed * 79 + 11)
+    corr_lines, corr_impls, corr_payloads = [], [], []
     for case in range(40):
         fw = Flumine(client=clients.BetfairClient(mock.Mock(lightweight=False), username="u"))
         fw.log_control = lambda e: None
@@ -264,7 +265,8 @@ def live_market_book_containment(res, seed):
         bad_call = rng.randint(1, 3)
         exc = rng.choice([ValueError, FlumineException, KeyError])
         got = {i: [] for i in range(n)}
-        calls = {"n": 0}
+        calls = {"n": 0, "raised_at": None}
+        in_order = []      # every callback of the case, in the order in which the framework made it
         sts = []
         for i in range(n):
             st = BaseStrategy(market_filter={}, name="live%d" % i)
@@ -272,9 +274,11 @@ def live_market_book_containment(res, seed):
 
             def hit(kind, market, mb, i=i):
                 got[i].append((kind, mb.market_id, mb.publish_time_epoch))
+                in_order.append((i, kind, mb.market_id, mb.publish_time_epoch))
                 if i == bad and kind == bad_cb:
                     calls["n"] += 1
                     if calls["n"] == bad_call:
+                        calls["raised_at"] = (mb.market_id, mb.publish_time_epoch)
                         raise exc("injected by the checker")
             st.process_new_market = lambda market, mb, hit=hit: hit("new", market, mb)
             st.check_market_book = lambda market, mb, hit=hit: (hit("check", market, mb), True)[1]
@@ -327,6 +331,30 @@ def live_market_book_containment(res, seed):
                 break
         if calls["n"] >= bad_call:
             res.nontrivial.add("livebook %d" % case)
+        # correspondence: the callbacks of every book, in order, against the model's dispatch loop (`Dispatch.processBook`, the
+        # function the containment theorems are about) with no middleware and the one raising call
+        kname = {"new": "newMarket", "check": "check", "book": "book"}
+        books_seen = []
+        for i, kind, m_, p_ in in_order:
+            if (m_, p_) not in books_seen:
+                books_seen.append((m_, p_))
+        for (m_, p_) in books_seen:
+            these = [(i, kind) for i, kind, m2, p2 in in_order if (m2, p2) == (m_, p_)]
+            is_new = "T" if any(k == "new" for _, k in these) else "F"
+            ov = "s%d.%s=R" % (bad, kname[bad_cb]) if calls["raised_at"] == (m_, p_) else "."
+            corr_lines.append("dispatch 0 F %s %s %s" % (is_new, ",".join("%d:%s:F" % (i, "T" if sts[i].streams[0].stream_id == 55 else "F") for i in range(n)), ov))
+            corr_impls.append(",".join("s%d.%s" % (i, kname[k]) for i, k in these))
+            corr_payloads.append(payload)
+    _compare_dispatch(res, model_ok, corr_lines, corr_impls, corr_payloads)
+
+
+def _compare_dispatch(res, model_ok, lines, impls, payloads):
+    if not (model_ok and lines):
+        return
+    for line, impl, ans, pl in zip(lines, impls, common.run_driver(lines), payloads):
+        res.evaluations += 1
+        if ans != impl:
+            res.disagree({"request": line, "model": ans, "implementation": impl, "case": pl})
 
 
 def run(res, tier, seed, model_ok, search):
@@ -338,7 +366,7 @@ def run(res, tier, seed, model_ok, search):
     big = tier != "quick" or search
     n_iso, n_inj = (1500, 3000) if big else (60, 150)
     raw_data_containment(res, seed)
-    live_market_book_containment(res, seed)
+    live_market_book_containment(res, seed, model_ok)
     iso = common.pmap(_iso_work, [(seed, i) for i in range(n_iso)], chunksize=2)
     inj = common.pmap(_inj_work, [(seed, i) for i in range(n_inj)], chunksize=4)
     for o in iso:
